@@ -41,3 +41,8 @@ add('C01', 'translation_validation',
     'Clause A: every row of the current decode table (built by the real GetDecodeTable inside the executor) is dispatched through the real Matcher::call / std::function / Proxy / handler code with the opcode symbolic inside the row, a symbolic second word, a symbolic RegisterState under Inv and data memory as an SMT array, and compared with the same row of the frozen pinned upstream interpreter (/verif/ref, the hardware-validated reference): post-registers, data/program memory writes and exit class must agree wherever the reference completes. Identical IR closures are equal by construction (quick tier still executes a seeded sample of them in both trees; thorough executes all 443); any differing cell is decided by SMT and a counterexample is replayed on natively compiled current and reference interpreters.',
     'Reference = pinned upstream sources (hardware result file is an LFS pointer, unavailable). Memory interface methods are SMT-array stubs (verified in C11); CounterAcc and the allowed_instruction set are tabulated by running the real code for all keys. Clause B (generator vectors) is checked by the generator obligations when present in the evidence; the Run(1) scaffold is compared in C02/C07/C09.',
     'symbolic execution of both trees\' LLVM IR + structural term identity / SMT equivalence per decode-table row', 'DESIGN.md section 2 C01')
+
+add('C03', 'model_checking',
+    'The real arithmetic kernels (AddSub, SetAccFlag, SaturateAcc, SatAndSetAccAndFlag, ExtendOperandForAlm, ConditionPass) are executed symbolically with fully symbolic arguments and compared by SMT with an independent model written from the property statement (exact 41-bit add/sub, flags of the 40-bit value, 32-bit saturation with limit flag). Then every row of the alm_r6 / alu (5 forms) / alm [imm8 address] / or / and / add / sub / add_p1 / sub_p1 / cmp (5) / pacr1 / lim / moda3 / moda4 (non-shift ops) families is dispatched through the real decode table with the opcode symbolic inside the row and compared field-by-field with the model applied to the operands the form names; compare forms change flags only; data memory unchanged; no abort reachable.',
+    'Inv on the pre-state. Operand bit positions of each form are read from decoder.h INST lines. Documented hardware quirks are part of the model (and #imm8 keeps bits 8..15, neg carry/overflow rule, logic ops bypass saturation). Forms with Register/[Rn] operands and msu/sqr/sqra are covered by C01 (reference) / C04 / C10 rather than by this model.',
+    'symbolic execution of LLVM IR + SMT equivalence with an independent arithmetic reference model', 'DESIGN.md section 2 C03')
